@@ -315,7 +315,12 @@ func c23Run(c *fw.Ctx, only string) {
 								verdict = fmt.Sprintf("%s reports not-found for an object that is present throughout", e.op)
 							}
 						default:
-							verdict = fmt.Sprintf("%s fails: %s", e.op, e.res)
+							if strings.Contains(e.res, "file already closed") {
+								// one defect, many places where the closed descriptor is noticed
+								verdict = "a read of an object that is present throughout fails: file already closed"
+							} else {
+								verdict = fmt.Sprintf("%s fails: %s", e.op, e.res)
+							}
 						}
 					}
 				}
